@@ -53,7 +53,11 @@ func alphaKey(rnd *rand.Rand, maxlen int) string {
 	return string(b)
 }
 
-func longKeys(rnd *rand.Rand) []string {
+// longKeys: nearMax adds the family of keys just below the index entry limit (4096 bytes);
+// two of their separators do not fit into one tree node, which the btree handles badly
+// (known finding node-too-large-near-max-keys) -- they are only used by the LongPfx style so
+// that the other styles stay clear of it
+func longKeys(rnd *rand.Rand, nearMax bool) []string {
 	var ks []string
 	for _, n := range []int{253, 254, 255, 256, 257, 300} {
 		p := strings.Repeat("p", n)
@@ -64,8 +68,13 @@ func longKeys(rnd *rand.Rand) []string {
 		q := "q" + strings.Repeat("\x00", n)
 		ks = append(ks, q, q+"\x01", q+"\x00")
 	}
-	big := strings.Repeat("L", MaxLen-3)
-	ks = append(ks, big, big+"a", big+"ab", big+"abc", big+"b", big+"\xff\xff\xff")
+	if nearMax {
+		big := strings.Repeat("L", MaxLen-3)
+		ks = append(ks, big, big+"a", big+"ab", big+"abc", big+"b", big+"\xff\xff\xff")
+	} else {
+		big := strings.Repeat("L", 1500)
+		ks = append(ks, big, big+"a", big+"ab", big+"abc", big+"b", big+"\xff\xff\xff")
+	}
 	mid := strings.Repeat("M", 2040)
 	ks = append(ks, mid, mid+"1", mid+"2", mid+"3", mid+"4", mid+"5")
 	return ks
@@ -86,7 +95,7 @@ func Universe(rnd *rand.Rand, n int, style Style) []string {
 				add(pool[i])
 			}
 		}
-		lk := longKeys(rnd)
+		lk := longKeys(rnd, false)
 		for _, i := range rnd.Perm(len(lk)) {
 			if len(set) < n*5/6 {
 				add(lk[i])
@@ -102,7 +111,7 @@ func Universe(rnd *rand.Rand, n int, style Style) []string {
 			add(fmt.Sprintf("%s%06d", pre, 1000+i*step))
 		}
 	case LongPfx:
-		lk := longKeys(rnd)
+		lk := longKeys(rnd, true)
 		for _, i := range rnd.Perm(len(lk)) {
 			if len(set) < n {
 				add(lk[i])
